@@ -1703,6 +1703,8 @@ class ListProxy(list):
     def extend(self, objects):
         if self._parameter.names:
             self._warn('.append')
+        # An iterator can only be consumed once
+        objects = list(objects)
         with self._trigger():
             super().extend(objects)
             self._parameter._objects.extend(objects)
